@@ -1,0 +1,10 @@
+// Copyright 2026 The Go Authors. All rights reserved.
+// Use of this source code is governed by a BSD-style
+// license that can be found in the LICENSE file.
+
+//go:build !verif
+
+package ssh
+
+// verifFilterKexAlgos is a no-op unless built with the "verif" tag.
+func verifFilterKexAlgos(c *Config, algos []string) []string { return algos }
